@@ -409,12 +409,23 @@ class UserActions(object):
 
     # Make a copy of row_ids and fill in those set to None.
     filled_row_ids = row_ids[:]
+    # Automatic ids must not land on an id that is requested explicitly later in the same list.
+    explicit_ids = {r for r in row_ids if r is not None and r > 0}
     for i, row_id in enumerate(filled_row_ids):
       if row_id is None or row_id < 0:
+        while next_row_id in explicit_ids:
+          next_row_id += 1
         filled_row_ids[i] = row_id = next_row_id
       elif row_id > 1000000:
         raise ValueError("Row ID too high")
+      elif row_id == 0:
+        # Row 0 is the special empty record: nothing would get created.
+        raise ValueError("Row ID 0 is not valid")
       next_row_id = max(next_row_id, row_id) + 1
+
+    if len(set(filled_row_ids)) != len(filled_row_ids):
+      # Repeated ids would create fewer rows than the ids we return.
+      raise ValueError("Duplicate row IDs")
 
     # Whenever we add new rows, remember the mapping from any negative row_ids to their final
     # values. This allows the negative_row_ids to be used as Reference values in subsequent
